@@ -229,6 +229,7 @@ package appencryption
 //@   opt no-frame
 //@   requires f != nil && f.Config != nil && f.Config.Policy != nil && (f.Config.Policy.SharedIntermediateKeyCache || cacheCfgOK(f.Config.Policy.IntermediateKeyCacheEvictionPolicy, f.Config.Policy.IntermediateKeyCacheMaxSize))
 //@   ensures [C06:empty-partition-refused] id == "" ==> err != nil && result == nil
+//@   ensures [C06:an-uncached-session-is-built-for-exactly-the-given-id] called(newSession, 1) ==> arg(newSession, 1, id) == id
 
 // ---- Metastore (interface contract; fault-inclusive; rows are arbitrary: any field may be nil/empty) ----
 
